@@ -8,15 +8,18 @@ import math
 
 
 class QuoteBook(object):
-    def __init__(self, numpy_floats=False):
+    def __init__(self, numpy_floats=False, numpy_ints=False):
         self.q = {}
         self.queries = 0
         self._np = None
-        if numpy_floats:
+        self._ints = numpy_ints
+        if numpy_floats or numpy_ints:
             import numpy as np
             self._np = np
 
     def _f(self, x):
+        if self._ints:
+            return self._np.int64(int(x))      # whole prices served as numpy integers (an integer price column)
         if self._np is not None:
             return self._np.float64(x)
         return float(x)
@@ -37,6 +40,8 @@ class QuoteBook(object):
 
     def mid(self, asset):
         b, a = self.bid_ask(asset)
+        if self._ints and asset in self.q and (int(b) + int(a)) % 2 == 0:
+            return self._np.int64((int(b) + int(a)) // 2)
         return (b + a) / 2.0
 
     # -- data handler interface -------------------------------------------
